@@ -330,3 +330,8 @@ def run(ctx):
         "distinct = (core state, operation) pairs and detection scenarios"
     )
     ctx.exhaustive = True
+
+    # the command line face of the XorEncoded view: beacon-xordecode (CliTools.tla)
+    from vt.checks import xcli
+
+    xcli.xordecode_cli_part(ctx)
